@@ -83,7 +83,7 @@ def _solve_case(case):
         viols.setdefault(sig, {'sig': sig, 'what': what, 'detail': {}})
     c = Constants()
     d, nc, nq = case['d'], case['nc'], case['nq']
-    breaks = np.linspace(1.0, 4.0, nc + 1)
+    breaks = np.linspace(0.1, 14.5, nc + 1) if case['menu'] == 'qn' else (np.linspace(1.0, 4.0, nc + 1) if nc != 4 else np.linspace(0.7, 2.3, nc + 1))
     rs = BSplines(make_knots(breaks, d, False), d, False, case['path'] == 'cu')
     Sg = refspline.RefSpace(BSplines(make_knots(breaks, d, False), d, False, False))
     rpts = np.asarray(rs.greville, dtype=float)
